@@ -142,6 +142,16 @@ let register (h : (string, string list -> string) Hashtbl.t)
       let l = List.init (String.length bits) (fun i -> bits.[i] = '1') in
       string_of_int (int_of_z (check_exit l))
     | _ -> failwith "check_exit args");
+  (* ---------------- Model C-off: Region ----------------
+     region <enabling text csv> <text csv>  ->  chunks "I:<csv>" / "N:<count>" ... then "R:<length of what is left>" *)
+  Hashtbl.replace h "region" (fun args ->
+    match args with
+    | [ont; txt] ->
+      let l = ints_of_csv txt in
+      let (cs, rest) = scan_off (ends_plain (ints_of_csv ont)) (nat_of_int (List.length l + 1)) l in
+      String.concat " " (List.map (function RIgnored t -> "I:" ^ csv_of_ints t | RNewline n -> "N:" ^ string_of_int (int_of_nat n)) cs
+                         @ ["R:" ^ string_of_int (List.length rest)])
+    | _ -> failwith "region args");
   Hashtbl.replace h "backup_step" (fun args ->
     match args with
     | [fl; bk; cpl; md; prot; ev] ->
